@@ -20,6 +20,7 @@ PATH_STR_ATTRS = {"name", "suffix", "stem"}
 BUILTIN_RESULT = {"str": "str", "repr": "str", "format": "str", "chr": "str", "int": "int", "len": "int", "ord": "int", "float": "float", "bool": "bool",
                   "bytes": "bytes", "list": "list", "sorted": "list", "dict": "dict", "tuple": "tuple"}
 UNKNOWN = frozenset({"unknown"})
+BOT = "bot"     # "nothing known yet" inside the round-based fixpoint (a use seen before the definition)
 
 
 def ann_kinds(ann):
@@ -85,8 +86,8 @@ class Kinds:
     this is (reads of `self.f` have the declared kinds -- the invariant the store obligations maintain); `call_kinds(name, call)`
     -> kinds | None for calls of module-level functions (result kinds of a helper)."""
 
-    def __init__(self, fn, self_fields=None, call_kinds=None, consts=None, self_name=None):
-        self.fn, self.fields, self.call_kinds = fn, self_fields or {}, call_kinds
+    def __init__(self, fn, self_fields=None, call_kinds=None, consts=None, self_name=None, call_parts=None):
+        self.fn, self.fields, self.call_kinds, self.call_parts = fn, self_fields or {}, call_kinds, call_parts
         self.consts = dict(consts or {})                 # parameter name -> ast.Constant (call-site literal)
         a = fn.args
         params = a.posonlyargs + a.args + a.kwonlyargs
@@ -101,12 +102,27 @@ class Kinds:
             if extra is not None:
                 self.env[extra.arg] = set(UNKNOWN)
         self.elem = {}                                   # name -> kinds of the elements of the list bound to it
-        for _ in range(5):
-            before = (dict((k, set(v)) for k, v in self.env.items()), dict((k, set(v)) for k, v in self.elem.items()))
+        self._final = False
+        self.parts, self.eparts = {}, {}                 # name -> component kinds of the tuple bound to it / of the tuples in the list bound to it
+        self.locals = {n.id for n in ast.walk(fn) if isinstance(n, ast.Name) and isinstance(n.ctx, ast.Store)}
+        for _ in range(6):
+            before = repr((sorted((k, sorted(v)) for k, v in self.env.items()), sorted((k, sorted(v)) for k, v in self.elem.items()), self.parts, self.eparts))
+            self._np, self._nep = {}, {}
             for n in ast.walk(fn):
                 self.visit(n)
-            if before == (self.env, self.elem):
+            self.parts, self.eparts = self._np, self._nep      # recomputed per round: a use seen before its definition settles in the next one
+            if before == repr((sorted((k, sorted(v)) for k, v in self.env.items()), sorted((k, sorted(v)) for k, v in self.elem.items()), self.parts, self.eparts)):
                 break
+        for nm in self.locals:                           # a local none of whose bindings was understood
+            if not self.env.get(nm):
+                self.env[nm] = set(UNKNOWN)
+        self._final = True
+        self.overlay = {}                                # name -> kinds known at the program point under evaluation (isinstance / None tests)
+        self.facts_at = {}                               # id(statement) -> overlay in force when it runs
+        try:
+            self._walk_facts(fn.body, {})
+        except Exception:  # noqa  (narrowing is optional: without it the kinds are only less precise)
+            self.facts_at = {}
 
     # -- bindings ------------------------------------------------------------------------------------------------------
     def add(self, name, kinds, elem=None):
@@ -114,11 +130,26 @@ class Kinds:
         if elem is not None:
             self.elem.setdefault(name, set()).update(elem)
 
+    @staticmethod
+    def _jp(d, name, val):
+        """Join component kinds into d[name]: val is a list of kind sets, None (not a known tuple) or BOT (nothing known yet)."""
+        if val is BOT:
+            return
+        cur = d.get(name, BOT)
+        if val is None or cur is False:
+            d[name] = False
+        elif cur is BOT:
+            d[name] = [set(x) for x in val]
+        elif len(cur) != len(val):
+            d[name] = False
+        else:
+            d[name] = [a | b for a, b in zip(cur, val)]
+
     def bind(self, target, value_kinds, value_elem=None, tuple_parts=None):
         if isinstance(target, ast.Name):
             self.add(target.id, value_kinds, value_elem)
         elif isinstance(target, (ast.Tuple, ast.List)):
-            if tuple_parts is not None and len(tuple_parts) == len(target.elts):
+            if tuple_parts is not None and len(tuple_parts) == len(target.elts) and not any(isinstance(t, ast.Starred) for t in target.elts):
                 for t, (k, e) in zip(target.elts, tuple_parts):
                     self.bind(t, k, e)
             else:
@@ -126,6 +157,16 @@ class Kinds:
                     self.bind(t, value_elem if value_elem is not None else set(UNKNOWN))
         elif isinstance(target, ast.Starred):
             self.bind(target.value, {"list"}, set(UNKNOWN))
+
+    def bind_value(self, target, value):
+        """target = value (assignment, walrus)."""
+        tp = self.tuple_parts(value)
+        if isinstance(target, ast.Name):
+            self._jp(self._np, target.id, tp)
+            self._jp(self._nep, target.id, self.elem_tuple_parts(value))
+        if tp is BOT and isinstance(target, (ast.Tuple, ast.List)):
+            return                                           # nothing known yet about the right-hand side: next round
+        self.bind(target, self.of(value), self.elem_of(value), [(k, None) for k in tp] if isinstance(tp, list) else None)
 
     def iter_parts(self, it):
         """Element description of an iterable expression: (kinds, elem-of-element, tuple parts or None)."""
@@ -139,41 +180,186 @@ class Kinds:
                 return {"int"}, None, None
             if it.func.id in ("sorted", "list", "reversed", "tuple", "set") and len(it.args) >= 1:
                 return self.iter_parts(it.args[0])
+        ep = self.elem_tuple_parts(it)
+        if isinstance(ep, list):
+            return {"tuple"}, None, [(k, None) for k in ep]
+        if ep is BOT:
+            return set(), None, BOT
         return self.elem_of(it), None, None
+
+    def bind_iter(self, target, it):
+        k, e, tp = self.iter_parts(it)
+        if tp is BOT:
+            if isinstance(target, ast.Name):
+                self.add(target.id, set())
+            return
+        if isinstance(target, ast.Name) and tp is not None:
+            self._jp(self._np, target.id, [x[0] for x in tp])
+        elif isinstance(target, ast.Name):
+            self._jp(self._np, target.id, None)
+        self.bind(target, k, e if tp is None else None, tp)
 
     def visit(self, n):
         if isinstance(n, ast.Assign):
-            k, e = self.of(n.value), self.elem_of(n.value)
-            parts = [(self.of(x), self.elem_of(x)) for x in n.value.elts] if isinstance(n.value, (ast.Tuple, ast.List)) else None
             for t in n.targets:
-                self.bind(t, k, e, parts)
+                self.bind_value(t, n.value)
         elif isinstance(n, ast.AnnAssign) and n.value is not None:
-            self.bind(n.target, self.of(n.value), self.elem_of(n.value))
+            self.bind_value(n.target, n.value)
         elif isinstance(n, ast.AugAssign) and isinstance(n.target, ast.Name):
-            self.add(n.target.id, self.of(ast.BinOp(left=ast.Name(id=n.target.id, ctx=ast.Load()), op=n.op, right=n.value)))
+            self.add(n.target.id, self.of(ast.BinOp(left=ast.Name(id=n.target.id, ctx=ast.Load()), op=n.op, right=n.value)),
+                     self.elem_of(n.value) if isinstance(n.op, ast.Add) else None)
+            self._jp(self._np, n.target.id, None)
+            self._jp(self._nep, n.target.id, self.elem_tuple_parts(n.value) if isinstance(n.op, ast.Add) else None)
         elif isinstance(n, ast.NamedExpr):
-            self.bind(n.target, self.of(n.value), self.elem_of(n.value))
+            self.bind_value(n.target, n.value)
         elif isinstance(n, (ast.For, ast.AsyncFor)):
-            k, e, tp = self.iter_parts(n.iter)
-            self.bind(n.target, k, e if tp is None else k, tp)
+            self.bind_iter(n.target, n.iter)
         elif isinstance(n, ast.comprehension):
-            k, e, tp = self.iter_parts(n.iter)
-            self.bind(n.target, k, e if tp is None else k, tp)
+            self.bind_iter(n.target, n.iter)
         elif isinstance(n, ast.Expr) and isinstance(n.value, ast.Call) and isinstance(n.value.func, ast.Attribute) \
                 and isinstance(n.value.func.value, ast.Name):
             acc, m, args = n.value.func.value.id, n.value.func.attr, n.value.args
             if m == "append" and len(args) == 1:
                 self.add(acc, set(), self.of(args[0]))
+                self._jp(self._nep, acc, self.tuple_parts(args[0]))
             elif m == "insert" and len(args) == 2:
                 self.add(acc, set(), self.of(args[1]))
+                self._jp(self._nep, acc, self.tuple_parts(args[1]))
             elif m == "extend" and len(args) == 1:
                 self.add(acc, set(), self.elem_of(args[0]))
+                self._jp(self._nep, acc, self.elem_tuple_parts(args[0]))
+            elif m not in ("sort", "reverse", "pop", "remove", "clear", "index", "count", "copy") and acc in self.locals:
+                self.add(acc, set(), set(UNKNOWN))              # an unknown method may store anything into the container
+                self._jp(self._nep, acc, None)
         elif isinstance(n, (ast.With, ast.AsyncWith)):
             for it in n.items:
                 if it.optional_vars is not None:
                     self.bind(it.optional_vars, set(UNKNOWN), set(UNKNOWN))
         elif isinstance(n, ast.ExceptHandler) and n.name:
             self.add(n.name, {"obj:Exception"})
+        elif isinstance(n, ast.Assign) is False and isinstance(n, ast.Subscript) and isinstance(n.ctx, ast.Store) and isinstance(n.value, ast.Name):
+            self.add(n.value.id, set(), set(UNKNOWN))           # xs[i] = v: the element kinds are no longer known
+            self._jp(self._nep, n.value.id, None)
+
+    # -- narrowing by isinstance / None tests ------------------------------------------------------------------------------
+    def test_facts(self, test):
+        """(facts when the test holds, facts when it does not): {name: kinds}, for names that are never re-bound."""
+        if isinstance(test, ast.UnaryOp) and isinstance(test.op, ast.Not):
+            a, b = self.test_facts(test.operand)
+            return b, a
+        if isinstance(test, ast.BoolOp) and isinstance(test.op, ast.And):
+            pos = {}
+            for v in test.values:
+                for k, ks in self.test_facts(v)[0].items():
+                    pos[k] = (pos[k] & ks) if k in pos else ks
+            return pos, {}
+        if isinstance(test, ast.BoolOp) and isinstance(test.op, ast.Or):
+            neg = {}
+            for v in test.values:
+                for k, ks in self.test_facts(v)[1].items():
+                    neg[k] = (neg[k] & ks) if k in neg else ks
+            return {}, neg
+        name, kinds = None, None
+        if isinstance(test, ast.Call) and isinstance(test.func, ast.Name) and test.func.id == "isinstance" and len(test.args) == 2 \
+                and isinstance(test.args[0], ast.Name) and not test.keywords:
+            name, kinds = test.args[0].id, set()
+            for t in (test.args[1].elts if isinstance(test.args[1], ast.Tuple) else [test.args[1]]):
+                kinds |= ann_kinds(t) if isinstance(t, (ast.Name, ast.Attribute)) else set(UNKNOWN)
+            flip = False
+        elif isinstance(test, ast.Compare) and len(test.ops) == 1 and isinstance(test.ops[0], (ast.Is, ast.IsNot)) and isinstance(test.left, ast.Name) \
+                and isinstance(test.comparators[0], ast.Constant) and test.comparators[0].value is None:
+            name, kinds, flip = test.left.id, {"none"}, isinstance(test.ops[0], ast.IsNot)
+        if name is None or "unknown" in kinds or self.rebound(name):
+            return {}, {}
+        cur = self.of(ast.Name(id=name, ctx=ast.Load()))
+        pos = {name: (cur & kinds) if "unknown" not in cur else set(kinds)}
+        neg = {name: cur - kinds} if "unknown" not in cur else {}
+        if "int" in kinds and "bool" in cur:                   # isinstance(True, int)
+            pos[name] |= {"bool"}
+            if name in neg:
+                neg[name] -= {"bool"}
+        return (neg, pos) if flip else (pos, neg)
+
+    def _walk_facts(self, stmts, facts):
+        facts = dict(facts)
+        for st in stmts:
+            self.facts_at[id(st)] = dict(facts)
+            if isinstance(st, ast.If):
+                self.overlay = facts
+                try:
+                    pos, neg = self.test_facts(st.test)
+                finally:
+                    self.overlay = {}
+                self._walk_facts(st.body, dict(facts, **pos))
+                self._walk_facts(st.orelse, dict(facts, **neg))
+                if st.body and isinstance(st.body[-1], (ast.Return, ast.Raise)) and not st.orelse:
+                    facts.update(neg)
+            elif isinstance(st, (ast.For, ast.AsyncFor, ast.While)):
+                self._walk_facts(st.body, facts)
+                self._walk_facts(st.orelse, facts)
+            elif isinstance(st, (ast.With, ast.AsyncWith)):
+                self._walk_facts(st.body, facts)
+            elif isinstance(st, ast.Try):
+                self._walk_facts(st.body, facts)
+                for h in st.handlers:
+                    self._walk_facts(h.body, facts)
+                self._walk_facts(st.orelse, facts)
+                self._walk_facts(st.finalbody, facts)
+
+    def of_stmt(self, stmt, e):
+        """Kinds of an expression of statement `stmt`, with what the enclosing tests say about never-re-bound names."""
+        self.overlay = self.facts_at.get(id(stmt), {})
+        try:
+            return self.of(e)
+        finally:
+            self.overlay = {}
+
+    # -- tuples --------------------------------------------------------------------------------------------------------
+    def tuple_parts(self, e):
+        """Component kinds of a tuple-valued expression: list of kind sets | None (not understood) | BOT (nothing known yet)."""
+        if isinstance(e, ast.Tuple):
+            return None if any(isinstance(x, ast.Starred) for x in e.elts) else [self.of(x) for x in e.elts]
+        if isinstance(e, ast.Name):
+            v = self.parts.get(e.id, BOT)
+            if v is BOT:
+                return BOT if e.id in self.locals else None
+            return v if v is not False else None
+        if isinstance(e, ast.Call) and isinstance(e.func, ast.Name) and self.call_parts is not None and e.func.id not in self.env:
+            return self.call_parts(e.func.id, e)
+        if isinstance(e, ast.IfExp):
+            a, b = self.tuple_parts(e.body), self.tuple_parts(e.orelse)
+            if isinstance(a, list) and isinstance(b, list) and len(a) == len(b):
+                return [x | y for x, y in zip(a, b)]
+            return a if b is BOT else b if a is BOT else None
+        if isinstance(e, ast.Subscript) and not isinstance(e.slice, ast.Slice):
+            return self.elem_tuple_parts(e.value)
+        return None
+
+    def elem_tuple_parts(self, e):
+        """Component kinds of the tuples a list-like expression holds (same answers as tuple_parts)."""
+        if isinstance(e, (ast.ListComp, ast.GeneratorExp, ast.SetComp)):
+            return self.tuple_parts(e.elt)
+        if isinstance(e, (ast.List, ast.Tuple, ast.Set)) and e.elts:
+            d = {}
+            for x in e.elts:
+                self._jp(d, "x", None if isinstance(x, ast.Starred) else self.tuple_parts(x))
+            v = d.get("x", BOT)
+            return None if v is False else v
+        if isinstance(e, ast.Name):
+            v = self.eparts.get(e.id, BOT)
+            if v is BOT:
+                return BOT if e.id in self.locals else None
+            return v if v is not False else None
+        if isinstance(e, ast.Call) and isinstance(e.func, ast.Name):
+            if e.func.id in ("list", "sorted", "tuple", "reversed") and len(e.args) >= 1:
+                return self.elem_tuple_parts(e.args[0])
+            if e.func.id == "zip" and e.args:
+                return [self.elem_of(a) or set(UNKNOWN) for a in e.args]
+            if e.func.id == "enumerate" and e.args:
+                return [{"int"}, self.elem_of(e.args[0]) or set(UNKNOWN)]
+        if isinstance(e, ast.Subscript) and isinstance(e.slice, ast.Slice):
+            return self.elem_tuple_parts(e.value)
+        return None
 
     # -- expressions ---------------------------------------------------------------------------------------------------
     def elem_of(self, e):
@@ -186,7 +372,9 @@ class Kinds:
         if isinstance(e, (ast.ListComp, ast.SetComp, ast.GeneratorExp)):
             return self.of(e.elt)
         if isinstance(e, ast.Name):
-            return set(self.elem[e.id]) if e.id in self.elem else set(UNKNOWN)
+            if e.id in self.elem:
+                return set(self.elem[e.id])
+            return set() if e.id in self.locals and not self._final else set(UNKNOWN)
         if isinstance(e, ast.Subscript) and isinstance(e.slice, ast.Slice):
             return self.elem_of(e.value)
         if isinstance(e, ast.BinOp) and isinstance(e.op, ast.Add):
@@ -213,16 +401,28 @@ class Kinds:
         if isinstance(e, ast.JoinedStr):
             return {"str"}
         if isinstance(e, ast.Name):
+            if self._final and e.id in self.overlay:
+                return set(self.overlay[e.id])
             if e.id in self.env:
-                return set(self.env[e.id]) or set(UNKNOWN)
-            return set(UNKNOWN)
+                return set(self.env[e.id]) if self.env[e.id] or not self._final else set(UNKNOWN)
+            return set() if e.id in self.locals and not self._final else set(UNKNOWN)
         if isinstance(e, ast.IfExp):
             t = self.truth(e.test)
             if t is True:
                 return self.of(e.body)
             if t is False:
                 return self.of(e.orelse)
-            return self.of(e.body) | self.of(e.orelse)
+            if not self._final:
+                return self.of(e.body) | self.of(e.orelse)
+            pos, neg = self.test_facts(e.test)
+            saved, out = self.overlay, set()
+            for part, facts in ((e.body, pos), (e.orelse, neg)):
+                self.overlay = dict(saved, **facts)
+                try:
+                    out |= self.of(part)
+                finally:
+                    self.overlay = saved
+            return out
         if isinstance(e, ast.BoolOp):
             out = set()
             for v in e.values:
@@ -260,6 +460,16 @@ class Kinds:
                 return k if k <= {"str", "list", "bytes", "tuple"} else set(UNKNOWN)
             if self.of(e.value) == {"str"}:
                 return {"str"}
+            tp = self.tuple_parts(e.value)
+            if isinstance(tp, list):
+                if isinstance(e.slice, ast.Constant) and isinstance(e.slice.value, int) and -len(tp) <= e.slice.value < len(tp):
+                    return set(tp[e.slice.value])
+                out = set()
+                for x in tp:
+                    out |= x
+                return out
+            if tp is BOT:
+                return set()
             if isinstance(e.value, ast.Tuple) and isinstance(e.slice, ast.Constant) and isinstance(e.slice.value, int) and e.slice.value < len(e.value.elts):
                 return self.of(e.value.elts[e.slice.value])
             return self.elem_of(e.value)
@@ -366,7 +576,8 @@ class ModuleKinds:
         self._busy = set()
         self._memo = {}
 
-    def call_kinds(self, name, call):
+    def _callee(self, name, call):
+        """(function node, {parameter: literal}) or None when the call shape is not understood."""
         fn = self.m.functions.get(name)
         if fn is None or not isinstance(fn, (ast.FunctionDef,)):
             return None
@@ -385,25 +596,44 @@ class ModuleKinds:
             for k in call.keywords:
                 if k.arg in names and isinstance(k.value, ast.Constant):
                     consts[k.arg] = k.value
-            # defaults of parameters the call does not pass
             passed = set(pos[:len(call.args)]) | {k.arg for k in call.keywords}
-            defaults = dict(zip(pos[len(pos) - len(a.defaults):], a.defaults))
+            defaults = dict(zip(pos[len(pos) - len(a.defaults):], a.defaults)) if a.defaults else {}
             defaults.update({p.arg: d for p, d in zip(a.kwonlyargs, a.kw_defaults) if d is not None})
-            for p, d in defaults.items():
+            for p, d in defaults.items():                    # defaults of parameters the call does not pass
                 if p not in passed and isinstance(d, ast.Constant):
                     consts[p] = d
-        key = (name, tuple(sorted((k, repr(v.value)) for k, v in consts.items())))
+        return fn, consts
+
+    def _run(self, name, call, what):
+        got = self._callee(name, call)
+        if got is None:
+            return None
+        fn, consts = got
+        key = (what, name, tuple(sorted((k, repr(v.value)) for k, v in consts.items())))
         if key in self._memo:
             return self._memo[key]
         if key in self._busy:
-            return set()
+            return set() if what == "kinds" else BOT
         self._busy.add(key)
         try:
-            kk = Kinds(fn, None, self.call_kinds, consts, self_name="")
-            out = set()
-            for r in kk.returns():
-                out |= kk.of(r)
+            kk = Kinds(fn, None, self.call_kinds, consts, self_name="", call_parts=self.call_parts)
+            if what == "kinds":
+                out = set()
+                for r in kk.returns():
+                    out |= kk.of(r)
+            else:
+                d = {}
+                for r in kk.returns():
+                    Kinds._jp(d, "r", None if r is None else kk.tuple_parts(r))
+                out = d.get("r", None)
+                out = None if out is False else out
         finally:
             self._busy.discard(key)
         self._memo[key] = out
         return out
+
+    def call_kinds(self, name, call):
+        return self._run(name, call, "kinds")
+
+    def call_parts(self, name, call):
+        return self._run(name, call, "parts")
